@@ -30,6 +30,8 @@ GEN = {
     "CrossChain_gen_quick.cfg": {"src": ["v", "b"], "tgt": ["v", "t"], "ids": ["i1", "i2"], "vars": [1, 2], "gated": []},
     "CrossChain_gen_gate.cfg": {"src": ["g"], "tgt": ["t"], "ids": ["i1"], "vars": [1], "gated": ["g"]},
     "CrossChain_gen_thorough.cfg": {"src": ["v", "b", "g"], "tgt": ["v", "t"], "ids": ["i1"], "vars": [1, 2], "gated": ["g"]},
+    # relay transactions: two imports through NativeCall in one transaction (own leaf first / second error ignored)
+    "CrossChain_gen_relay.cfg": {"src": ["v", "b"], "tgt": ["t", "w"], "ids": ["i1", "i2"], "vars": [1], "gated": [], "kinds": {"w": "t"}},
 }
 COVERED = ["vote", "ripple", "eth (Ethash seal through the verif seal hook)", "bsc", "heco", "hsc", "bytom"]
 UNCOVERED = ["btc", "ont", "neo", "neo3", "neo3legacy", "cosmos", "quorum", "zilliqa", "zilliqalegacy", "msc", "okex", "polygon",
@@ -84,6 +86,9 @@ def _event_key(events, idx):
     prev = events[idx - 1] if idx > 0 else events[0]
     if ev["ev"] == "import":
         return "import[%s]:%s:%s" % (_router(ev["s"]), _why(prev, ev), "accepted" if ev["acc"] else "refused")
+    if ev["ev"] == "relay":
+        return "relay[%s+%s]:pre=%s,catch=%s:%s/%s" % (_router(ev["a"]["s"]), _router(ev["b"]["s"]), ev["pre"], ev["catch"],
+                                                       "acc" if ev["a"]["acc"] else "ref", "acc" if ev["b"]["acc"] else "ref")
     return "%s:%s" % (ev["ev"], "failed" if ev.get("fail") else "effect")
 
 
@@ -92,12 +97,14 @@ def run(ctx, pid):
     b = ctx.build("vd-xchain")
     ctx.mc("CrossChain", "CrossChain_mc_quick.cfg" if q else "CrossChain_mc_thorough.cfg", timeout=1500)
     total = distinct = 0
-    gens = [(c, GEN[c]) for c in ["CrossChain_gen_quick.cfg", "CrossChain_gen_gate.cfg"] + ([] if q else ["CrossChain_gen_thorough.cfg"])]
+    ctx.mc("CrossChain", "CrossChain_mc_relay.cfg", timeout=1500)
+    gens = [(c, GEN[c]) for c in ["CrossChain_gen_quick.cfg", "CrossChain_gen_gate.cfg", "CrossChain_gen_relay.cfg"] +
+            ([] if q else ["CrossChain_gen_thorough.cfg"])]
     gens += SWEEPS
     # node configuration EnableEventLog = false (the notification is not part of the properties, records and leaves are):
     # the small edge sets completely, of the large ones every edge whose step is an accepted import or closes a block
     gens += [(c, dict(d, eventlog=False)) for c, d in gens]
-    BIG = ("CrossChain_gen_quick.cfg", "CrossChain_gen_thorough.cfg")
+    BIG = ("CrossChain_gen_quick.cfg", "CrossChain_gen_thorough.cfg", "CrossChain_gen_relay.cfg")
     groups = {}
     diverged = 0
     cache = {}
@@ -108,7 +115,7 @@ def run(ctx, pid):
         if len(edges) < 100:
             ctx.fail("too few edges from %s: %d" % (cfg, len(edges)))
         if dcfg.get("eventlog") is False and cfg in BIG:
-            edges = [e for e in edges if e["step"].get("acc") or e["step"]["act"] == "newblock"]
+            edges = [e for e in edges if e["step"].get("acc") or e["step"]["act"] == "newblock" or (e["step"]["act"] == "relay" and e["step"].get("ok"))]
             if len(edges) < 100:
                 ctx.fail("too few accepted-import edges in %s: %d" % (cfg, len(edges)))
         out = ctx.driver(b, ["xc-edges", json.dumps(dcfg)], input_obj=edges, timeout=3000)
@@ -122,6 +129,8 @@ def run(ctx, pid):
         for o in out:
             if o.get("mismatch"):
                 st = o["step"]
+                if st["act"] == "relay":
+                    st = dict(st, why="%s/%s,pre=%s,catch=%s" % (st["a"].get("why"), st["b"].get("why"), st.get("pre", False), st.get("catch", False)))
                 sig = "%s%s:%s:%s%s" % (st["act"], "[%s]" % KIND.get(o.get("kind"), "?") if st["act"] == "import" else "",
                                         st.get("why", "-"), "+".join(o["what"]), "" if dcfg.get("eventlog", True) else ":eventlog-off")
                 o["cfg"] = dcfg
